@@ -98,18 +98,22 @@ def _impl(case, vec_x, vec_y, classes=None):
         if vec_x is not None:
             x = np.asarray(vec_x)
             dom, tgt = op.domain, op.target
+            single = case.get("dtype") in ("F", "C")
+            cdt, rdt = (np.complex64, np.float32) if single else (np.complex128, np.float64)
             if spec.doubled:
-                y = U.double(U.to_flat(op(U.from_flat(dom, U.undouble(x.real), np.complex128)), tgt))
+                y = U.double(U.to_flat(op(U.from_flat(dom, U.undouble(x.real), cdt)), tgt))
             else:
-                y = U.to_flat(op(U.from_flat(dom, x, np.complex128 if np.iscomplexobj(x) else np.float64)), tgt)
+                y = U.to_flat(op(U.from_flat(dom, x, cdt if np.iscomplexobj(x) else rdt)), tgt)
             out["Ax"] = U.canon_vec(y)
         if vec_y is not None and (op.capability & 2) and not spec.real_only_input.get(2, False):
             yv = np.asarray(vec_y)
             dom, tgt = op.domain, op.target
+            single = case.get("dtype") in ("F", "C")
+            cdt, rdt = (np.complex64, np.float32) if single else (np.complex128, np.float64)
             if spec.doubled:
-                z = U.double(U.to_flat(op.adjoint_times(U.from_flat(tgt, U.undouble(yv.real), np.complex128)), dom))
+                z = U.double(U.to_flat(op.adjoint_times(U.from_flat(tgt, U.undouble(yv.real), cdt)), dom))
             else:
-                z = U.to_flat(op.adjoint_times(U.from_flat(tgt, yv, np.complex128 if np.iscomplexobj(yv) else np.float64)), dom)
+                z = U.to_flat(op.adjoint_times(U.from_flat(tgt, yv, cdt if np.iscomplexobj(yv) else rdt)), dom)
             out["AHy"] = U.canon_vec(z)
         if hasattr(spec, "extras"):
             out.update(spec.extras(case, op))
@@ -174,8 +178,8 @@ def oracle(case, classes=None):
     cls = case["cls"]
     rng = random.Random(zlib.crc32(json.dumps(case, sort_keys=True, default=str).encode()))
     sig = lambda kind, **kw: dict(cls=cls, kind=kind, **kw)
-    cplx = "c" in spec.dtypes and case.get("dtype", "f") == "c"
-    dt = np.complex128 if cplx else (np.float64 if case.get("dtype", "f") != "i" else np.int64)
+    cplx = "c" in spec.dtypes and case.get("dtype", "f") in ("c", "C")
+    dt = _dt(case) if (cplx or case.get("dtype", "f") in ("i", "f", "F")) else np.float64
     problems = []
     try:
         dom, tgt = op.domain, op.target
@@ -208,7 +212,7 @@ def oracle(case, classes=None):
                 ydt = dt
                 if spec.real_only_input.get(2, False):
                     y1 = y1.real
-                    ydt = np.float64
+                    ydt = np.float32 if dt == np.complex64 else np.float64
                 AHy = U.to_flat(U.apply_checked(op, U.from_flat(tgt, y1, ydt), 2, problems), dom)
                 lhs, rhs = _vdot(y1, Ax1), _vdot(AHy, x1)
                 if spec.doubled:
@@ -232,8 +236,11 @@ def oracle(case, classes=None):
                 continue
             d = op._dom(mode)
             if isinstance(d, ift.DomainTuple) and len(d) >= 1 and d.size > 0:
-                wrong = ift.DomainTuple.make(tuple(ift.UnstructuredDomain(dd.shape) if not isinstance(dd, ift.UnstructuredDomain)
-                                                   else ift.RGSpace(dd.shape) for dd in d))
+                try:
+                    wrong = ift.DomainTuple.make(tuple(ift.UnstructuredDomain(dd.shape) if not isinstance(dd, ift.UnstructuredDomain)
+                                                       else ift.RGSpace(dd.shape) for dd in d))
+                except Exception:
+                    continue            # no equal-shaped other domain exists (e.g. a zero-dimensional sub-domain)
                 try:
                     op.apply(ift.full(wrong, 1. + 0j if cplx else 1.), mode)
                     return (f"{cls}: mode {mode} accepted a field that lives on a different domain", sig("domain-check", mode=mode))
@@ -352,7 +359,7 @@ def run_table(ctx, classes, driver, per_class, per_mal, pid):
             lines2.append(line)
             probes.append((None, None))
             continue
-        cplx = case.get("dtype") == "c" and not spec.doubled
+        cplx = case.get("dtype") in ("c", "C") and not spec.doubled
         x = U.rand_int_vec(ctx.rng, m["cols"], cplx)
         y = U.rand_int_vec(ctx.rng, m["rows"], cplx)
         l2 = dict(line)
